@@ -609,7 +609,7 @@ pub fn clock_hook(sleep_ns: u64) -> Option<u64> {
     // The long gaps - hours, days - lie *between* operations (see `idle_gap`): a one-hour
     // timeout does not fire because a helper thread was slow, but a one-hour cache does expire
     // between two requests.
-    let jump = match st.rng.weighted(&[60, 25, 10, 4, 1]) {
+    let jump = match st.rng.weighted(&[50, 20, 14, 11, 5]) {
         0 => st.rng.range(1, 5_000),                         // < 5 us
         1 => st.rng.range(5_000, 5_000_000),                 // < 5 ms
         2 => st.rng.range(5_000_000, 500_000_000),           // < 0.5 s
